@@ -13,6 +13,20 @@ let () = each_line (fun l ->
   let ws = List.filter (fun s -> s <> "") (String.split_on_char ' ' (String.trim o)) in
   if ws = [] || (List.hd ws = "EXC") || (String.length (List.hd ws) >= 5 && String.sub (List.hd ws) 0 5 = "CRASH") || List.hd ws = "HANG" then "FAIL exception " ^ o else begin
   let kvs = List.map (fun w -> match String.index_opt w '=' with Some i -> (String.sub w 0 i, String.sub w (i + 1) (String.length w - i - 1)) | None -> (w, "")) ws in
+  if List.mem_assoc "INV" kvs then begin
+    (* inv case: the 8 selections on the pair and on k twins; every answered verdict must be the same (C19_all_agree, C19_verdict_equivariant, C19_order_invariant) *)
+    let vecs = List.map outcomes (String.split_on_char ':' (field kvs "INV")) in
+    let all = List.concat vecs in
+    let fails = ref [] in
+    (match vecs with v0 :: _ -> if not (all_agree v0) then fails := "selections_disagree" :: !fails | [] -> fails := "format" :: !fails);
+    if not (all_agree all) then fails := "twin_verdict" :: !fails;
+    if List.mem Err all then fails := "exception" :: !fails;
+    let answered = List.length (List.filter (fun o -> o = Yes || o = No) all) in
+    let timeouts = List.length (List.filter (fun o -> o = Timeout) all) in
+    (if !fails = [] then "OK" else "FAIL " ^ String.concat "," (List.rev !fails))
+    ^ Printf.sprintf " answered=%d timeouts=%d" answered timeouts
+    ^ (if List.mem Yes all then " included" else if List.mem No all then " notincluded" else " unknown") ^ " inv"
+  end else
   let ab = outcomes (field kvs "AB") and aa = outcomes (field kvs "AA") and tw = outcomes (field kvs "TW") in
   let laws = outcomes (field kvs "LAWS") in
   let fails = ref [] in
